@@ -8,10 +8,10 @@ property count.  Direct monitor of the property on the same kind of runs (harnes
 from .. import refine, runs
 
 MODULE = "PyhmsVerif.Props.C03"
-THEOREMS = []
-LEVEL = "exploration"
-LEVEL_TEXT = "Trace refinement against the Lean tree model plus the property's direct monitor on sampled real runs; theorems for this property not yet registered."
-LEVEL_NOTE = "Sampled runs only; model, tracer and monitors trusted."
+THEOREMS = ['C03.C03_run', 'C03.step_count', 'C03.gen_count', 'C03.local_count', 'C03.create_count', 'C03.budget_hard', 'C16.cutoff_hard', 'C16.head_law']
+LEVEL = 'proof'
+LEVEL_TEXT = 'Theorem (inductive invariant, every reachable state, all configurations and event sequences): while no cutoff wrapper has refused a request, per level the sum of the demes counters equals the number of objective invocations of that level; hard budget for any wrapper stack and call sequence (C16.cutoff_hard). Tie: trace refinement (the model computes every counter and every evaluation-limit verdict itself; dumps carry per-deme counters, totals and invocation counts) + direct monitor at every GSC consult + minimize() budget sweep.'
+LEVEL_NOTE = 'Trusted: Lean kernel + standard axioms; the hand-written tree model (Tree.step) is tied to DemeTree.run by trace refinement on sampled runs (every run is re-executed by the model, dumps and sprout stages diffed); numerical engines (NumPy RNG, cma, scipy), objective values and user-defined stop-condition verdicts are environment; monitors trusted as failing-input search. ScipyNfevExact: result.nfev equals the number of objective calls scipy made (the model rejects a local search whose nfev differs from its requests). minimize() is covered by the same runs through its own configuration (see the minimize slice).'
 TECHNIQUE = "trace refinement against the Lean tree model (Tree.step re-executes real runs) + direct monitors"
 RULE = "case = one traced run of a random configuration (1-3 levels, engine per level from the full list, every shipped GSC/LSC kind plus user-defined ones, both stock sprout mechanisms and user-composed chains, hibernation on/off, both directions, decimal boxes, optional cutoff/precision/stats wrappers, shared or per-level problems); non-trivial = run with >= 2 demes and >= 2 metaepochs; distinct by configuration hash"
 ASSUMPTIONS = ["objective is deterministic and never returns NaN", "runs are capped at 12 metaepochs by a user-level composite stop condition"]
@@ -22,6 +22,7 @@ PID = "C03"
 def run(ctx):
     return [
         refine.refine_batch(ctx, ctx.size(120, 1500), force=FORCE, pid=PID, name="trace-refinement(Tree.step vs DemeTree.run)"),
+        runs.minimize_slice(ctx, PID, ctx.size(12, 150)),
         runs.monitor_batch(ctx, PID, ctx.size(250, 3000), force=FORCE),
     ]
 
